@@ -23,7 +23,7 @@ Example script_dom : L_dom l0 script = true. Proof. vm_compute. reflexivity. Qed
 Example script_fits : L_fits (len pre0) 40 l0 script = true. Proof. vm_compute. reflexivity. Qed.
 Example script_run :
   fst (arun r0 (len pre0) script) = fst (L_run l0 script) /\
-  exists lim', 40 <= lim' /\ Rr (snd (arun r0 (len pre0) script)) (pre0 ++ snd (L_run l0 script)) lim'.
+  Rr1 (snd (arun r0 (len pre0) script)) (pre0 ++ snd (L_run l0 script)) 40.
 Proof. apply api_refines_list_lemma; [exact r0_rel|exact script_dom|exact script_fits]. Qed.
 Example script_ends_raised : snd (L_run l0 script) = [Some VMsg] /\ length (fst (L_run l0 script)) = 20%nat.
 Proof. vm_compute. auto. Qed.
@@ -54,9 +54,9 @@ Proof.
 Qed.
 
 (* the whole CallByParam, succeeding and failing *)
-Example call_ok : exists r' lim', callByParamG r0 (Some (VRef 5)) [n 30; n 31] [n 60] [n 1; n 2] 3 false = Ok (r', false) /\
-   40 <= lim' /\ Rr r' (pre0 ++ l0 ++ adjust 3 [n 1; n 2]) lim'.
+Example call_ok : exists r', callByParamG r0 (Some (VRef 5)) [n 30; n 31] [n 60] [n 1; n 2] 3 false = Ok (r', false) /\
+   Rr r' (pre0 ++ l0 ++ adjust 3 [n 1; n 2]) 40.
 Proof. apply (call_contract_lemma r0 pre0 l0 _ _ _ _ 3 false 40 r0_rel); vm_compute; discriminate. Qed.
-Example call_fail : exists r' lim', callByParamG r0 (Some (VRef 5)) [n 30; n 31] [n 60] [n 1; n 2] 3 true = Ok (r', true) /\
-   40 <= lim' /\ Rr r' (pre0 ++ l0 ++ []) lim'.
+Example call_fail : exists r', callByParamG r0 (Some (VRef 5)) [n 30; n 31] [n 60] [n 1; n 2] 3 true = Ok (r', true) /\
+   Rr r' (pre0 ++ l0 ++ []) 40.
 Proof. apply (call_contract_lemma r0 pre0 l0 _ _ _ _ 3 true 40 r0_rel); vm_compute; discriminate. Qed.
